@@ -23,7 +23,7 @@ package gomatrixserverlib
 //@   assigns nothing
 
 //@ func checkEventLevels
-//@   property C08, C18:safety
+//@   property C07, C08, C18:safety
 //@   ensures ban: err == nil ==> levelOK(senderLevel, oldPowerLevels.Ban, newPowerLevels.Ban)
 //@   ensures invite: err == nil ==> levelOK(senderLevel, oldPowerLevels.Invite, newPowerLevels.Invite)
 //@   ensures kick: err == nil ==> levelOK(senderLevel, oldPowerLevels.Kick, newPowerLevels.Kick)
@@ -43,7 +43,7 @@ package gomatrixserverlib
 //@   assigns nothing
 
 //@ func checkUserLevels
-//@   property C08, C18:safety
+//@   property C07, C08, C18:safety
 //@   ensures users-new: err == nil ==> (forall u string :: u in newPowerLevels.Users ==> userOK(senderLevel, senderID, u, oldPowerLevels, newPowerLevels))
 //@   ensures users-old: err == nil ==> (forall u string :: u in oldPowerLevels.Users ==> userOK(senderLevel, senderID, u, oldPowerLevels, newPowerLevels))
 //@   ensures complete: (forall u string :: (u in newPowerLevels.Users || u in oldPowerLevels.Users) ==> userOK(senderLevel, senderID, u, oldPowerLevels, newPowerLevels)) ==> err == nil
@@ -56,12 +56,12 @@ package gomatrixserverlib
 //@   assigns nothing
 
 //@ func checkPowerLevelEventV1
-//@   property C08, C18:safety
+//@   property C07, C08, C18:safety
 //@   ensures nil: err == nil
 //@   assigns nothing
 
 //@ func checkPowerLevelEventV2
-//@   property C08, C18:safety
+//@   property C07, C08, C18:safety
 //@   ensures notifications-new: err == nil ==> (forall n string :: n in newPowerLevels.Notifications ==> levelOK(UL(oldPowerLevels, sender), NL(oldPowerLevels, n), NL(newPowerLevels, n)))
 //@   ensures notifications-old: err == nil ==> (forall n string :: n in oldPowerLevels.Notifications ==> levelOK(UL(oldPowerLevels, sender), NL(oldPowerLevels, n), NL(newPowerLevels, n)))
 //@   loop 1: invariant forall n string :: seen(1)[n] ==> hasPair(notificationLevelChecks, NL(oldPowerLevels, n), NL(newPowerLevels, n))
@@ -72,7 +72,7 @@ package gomatrixserverlib
 //@   assigns nothing
 
 //@ func checkPowerLevelEventV3
-//@   property C08, C18:safety
+//@   property C07, C08, C18:safety
 //@   requires createEvent != nil
 //@   ensures notifications-new: err == nil ==> (forall n string :: n in newPowerLevels.Notifications ==> levelOK(UL(oldPowerLevels, sender), NL(oldPowerLevels, n), NL(newPowerLevels, n)))
 //@   ensures notifications-old: err == nil ==> (forall n string :: n in oldPowerLevels.Notifications ==> levelOK(UL(oldPowerLevels, sender), NL(oldPowerLevels, n), NL(newPowerLevels, n)))
@@ -89,7 +89,7 @@ package gomatrixserverlib
 //@   assigns nothing
 
 //@ func (*allowerContext).userPowerLevel
-//@   property C07, C18:safety
+//@   property C07, C08, C18:safety
 //@   requires a != nil && (a.powerLevelsEvent == nil ==> a.createEvent != nil)
 //@   ensures level: result == effLevel(*a, userID)
 //@   assigns nothing
@@ -482,6 +482,7 @@ package gomatrixserverlib
 //@   ensures table.1.parsePowerLevelsFunc: roomVersionMeta["1"].(RoomVersionImpl).parsePowerLevelsFunc == parsePowerLevels
 //@   ensures C08.table.1.parsePowerLevelsFunc: roomVersionMeta["1"].(RoomVersionImpl).parsePowerLevelsFunc == parsePowerLevels
 //@   ensures table.1.domainlessRoomID: roomVersionMeta["1"].(RoomVersionImpl).domainlessRoomID == false
+//@   ensures C18.table.1.domainlessRoomID: roomVersionMeta["1"].(RoomVersionImpl).domainlessRoomID == false
 //@   ensures table.1.privilegedCreators: roomVersionMeta["1"].(RoomVersionImpl).privilegedCreators == false
 //@   ensures C07.table.1.privilegedCreators: roomVersionMeta["1"].(RoomVersionImpl).privilegedCreators == false
 //@   ensures table.1.checkRestrictedJoin: roomVersionMeta["1"].(RoomVersionImpl).checkRestrictedJoin == noCheckRestrictedJoin
@@ -492,11 +493,14 @@ package gomatrixserverlib
 //@   ensures table.1.checkKnockingAllowedFunc: roomVersionMeta["1"].(RoomVersionImpl).checkKnockingAllowedFunc == disallowKnocking
 //@   ensures C07.table.1.checkKnockingAllowedFunc: roomVersionMeta["1"].(RoomVersionImpl).checkKnockingAllowedFunc == disallowKnocking
 //@   ensures table.1.checkCreateEvent: roomVersionMeta["1"].(RoomVersionImpl).checkCreateEvent == checkCreateEventV1
+//@   ensures C18.table.1.checkCreateEvent: roomVersionMeta["1"].(RoomVersionImpl).checkCreateEvent == checkCreateEventV1
 //@   ensures C07.table.1.checkCreateEvent: roomVersionMeta["1"].(RoomVersionImpl).checkCreateEvent == checkCreateEventV1
 //@   ensures table.1.newEventFromUntrustedJSONFunc: roomVersionMeta["1"].(RoomVersionImpl).newEventFromUntrustedJSONFunc == newEventFromUntrustedJSONV1
+//@   ensures C18.table.1.newEventFromUntrustedJSONFunc: roomVersionMeta["1"].(RoomVersionImpl).newEventFromUntrustedJSONFunc == newEventFromUntrustedJSONV1
 //@   ensures C03.table.1.newEventFromUntrustedJSONFunc: roomVersionMeta["1"].(RoomVersionImpl).newEventFromUntrustedJSONFunc == newEventFromUntrustedJSONV1
 //@   ensures C04.table.1.newEventFromUntrustedJSONFunc: roomVersionMeta["1"].(RoomVersionImpl).newEventFromUntrustedJSONFunc == newEventFromUntrustedJSONV1
 //@   ensures table.1.newEventFromTrustedJSONFunc: roomVersionMeta["1"].(RoomVersionImpl).newEventFromTrustedJSONFunc == newEventFromTrustedJSONV1
+//@   ensures C18.table.1.newEventFromTrustedJSONFunc: roomVersionMeta["1"].(RoomVersionImpl).newEventFromTrustedJSONFunc == newEventFromTrustedJSONV1
 //@   ensures C03.table.1.newEventFromTrustedJSONFunc: roomVersionMeta["1"].(RoomVersionImpl).newEventFromTrustedJSONFunc == newEventFromTrustedJSONV1
 //@   ensures table.1.newEventFromTrustedJSONWithEventIDFunc: roomVersionMeta["1"].(RoomVersionImpl).newEventFromTrustedJSONWithEventIDFunc == newEventFromTrustedJSONWithEventIDV1
 //@   ensures C03.table.1.newEventFromTrustedJSONWithEventIDFunc: roomVersionMeta["1"].(RoomVersionImpl).newEventFromTrustedJSONWithEventIDFunc == newEventFromTrustedJSONWithEventIDV1
@@ -523,6 +527,7 @@ package gomatrixserverlib
 //@   ensures table.2.parsePowerLevelsFunc: roomVersionMeta["2"].(RoomVersionImpl).parsePowerLevelsFunc == parsePowerLevels
 //@   ensures C08.table.2.parsePowerLevelsFunc: roomVersionMeta["2"].(RoomVersionImpl).parsePowerLevelsFunc == parsePowerLevels
 //@   ensures table.2.domainlessRoomID: roomVersionMeta["2"].(RoomVersionImpl).domainlessRoomID == false
+//@   ensures C18.table.2.domainlessRoomID: roomVersionMeta["2"].(RoomVersionImpl).domainlessRoomID == false
 //@   ensures table.2.privilegedCreators: roomVersionMeta["2"].(RoomVersionImpl).privilegedCreators == false
 //@   ensures C07.table.2.privilegedCreators: roomVersionMeta["2"].(RoomVersionImpl).privilegedCreators == false
 //@   ensures table.2.checkRestrictedJoin: roomVersionMeta["2"].(RoomVersionImpl).checkRestrictedJoin == noCheckRestrictedJoin
@@ -533,11 +538,14 @@ package gomatrixserverlib
 //@   ensures table.2.checkKnockingAllowedFunc: roomVersionMeta["2"].(RoomVersionImpl).checkKnockingAllowedFunc == disallowKnocking
 //@   ensures C07.table.2.checkKnockingAllowedFunc: roomVersionMeta["2"].(RoomVersionImpl).checkKnockingAllowedFunc == disallowKnocking
 //@   ensures table.2.checkCreateEvent: roomVersionMeta["2"].(RoomVersionImpl).checkCreateEvent == checkCreateEventV1
+//@   ensures C18.table.2.checkCreateEvent: roomVersionMeta["2"].(RoomVersionImpl).checkCreateEvent == checkCreateEventV1
 //@   ensures C07.table.2.checkCreateEvent: roomVersionMeta["2"].(RoomVersionImpl).checkCreateEvent == checkCreateEventV1
 //@   ensures table.2.newEventFromUntrustedJSONFunc: roomVersionMeta["2"].(RoomVersionImpl).newEventFromUntrustedJSONFunc == newEventFromUntrustedJSONV1
+//@   ensures C18.table.2.newEventFromUntrustedJSONFunc: roomVersionMeta["2"].(RoomVersionImpl).newEventFromUntrustedJSONFunc == newEventFromUntrustedJSONV1
 //@   ensures C03.table.2.newEventFromUntrustedJSONFunc: roomVersionMeta["2"].(RoomVersionImpl).newEventFromUntrustedJSONFunc == newEventFromUntrustedJSONV1
 //@   ensures C04.table.2.newEventFromUntrustedJSONFunc: roomVersionMeta["2"].(RoomVersionImpl).newEventFromUntrustedJSONFunc == newEventFromUntrustedJSONV1
 //@   ensures table.2.newEventFromTrustedJSONFunc: roomVersionMeta["2"].(RoomVersionImpl).newEventFromTrustedJSONFunc == newEventFromTrustedJSONV1
+//@   ensures C18.table.2.newEventFromTrustedJSONFunc: roomVersionMeta["2"].(RoomVersionImpl).newEventFromTrustedJSONFunc == newEventFromTrustedJSONV1
 //@   ensures C03.table.2.newEventFromTrustedJSONFunc: roomVersionMeta["2"].(RoomVersionImpl).newEventFromTrustedJSONFunc == newEventFromTrustedJSONV1
 //@   ensures table.2.newEventFromTrustedJSONWithEventIDFunc: roomVersionMeta["2"].(RoomVersionImpl).newEventFromTrustedJSONWithEventIDFunc == newEventFromTrustedJSONWithEventIDV1
 //@   ensures C03.table.2.newEventFromTrustedJSONWithEventIDFunc: roomVersionMeta["2"].(RoomVersionImpl).newEventFromTrustedJSONWithEventIDFunc == newEventFromTrustedJSONWithEventIDV1
@@ -564,6 +572,7 @@ package gomatrixserverlib
 //@   ensures table.3.parsePowerLevelsFunc: roomVersionMeta["3"].(RoomVersionImpl).parsePowerLevelsFunc == parsePowerLevels
 //@   ensures C08.table.3.parsePowerLevelsFunc: roomVersionMeta["3"].(RoomVersionImpl).parsePowerLevelsFunc == parsePowerLevels
 //@   ensures table.3.domainlessRoomID: roomVersionMeta["3"].(RoomVersionImpl).domainlessRoomID == false
+//@   ensures C18.table.3.domainlessRoomID: roomVersionMeta["3"].(RoomVersionImpl).domainlessRoomID == false
 //@   ensures table.3.privilegedCreators: roomVersionMeta["3"].(RoomVersionImpl).privilegedCreators == false
 //@   ensures C07.table.3.privilegedCreators: roomVersionMeta["3"].(RoomVersionImpl).privilegedCreators == false
 //@   ensures table.3.checkRestrictedJoin: roomVersionMeta["3"].(RoomVersionImpl).checkRestrictedJoin == noCheckRestrictedJoin
@@ -574,11 +583,14 @@ package gomatrixserverlib
 //@   ensures table.3.checkKnockingAllowedFunc: roomVersionMeta["3"].(RoomVersionImpl).checkKnockingAllowedFunc == disallowKnocking
 //@   ensures C07.table.3.checkKnockingAllowedFunc: roomVersionMeta["3"].(RoomVersionImpl).checkKnockingAllowedFunc == disallowKnocking
 //@   ensures table.3.checkCreateEvent: roomVersionMeta["3"].(RoomVersionImpl).checkCreateEvent == checkCreateEventV1
+//@   ensures C18.table.3.checkCreateEvent: roomVersionMeta["3"].(RoomVersionImpl).checkCreateEvent == checkCreateEventV1
 //@   ensures C07.table.3.checkCreateEvent: roomVersionMeta["3"].(RoomVersionImpl).checkCreateEvent == checkCreateEventV1
 //@   ensures table.3.newEventFromUntrustedJSONFunc: roomVersionMeta["3"].(RoomVersionImpl).newEventFromUntrustedJSONFunc == newEventFromUntrustedJSONV2
+//@   ensures C18.table.3.newEventFromUntrustedJSONFunc: roomVersionMeta["3"].(RoomVersionImpl).newEventFromUntrustedJSONFunc == newEventFromUntrustedJSONV2
 //@   ensures C03.table.3.newEventFromUntrustedJSONFunc: roomVersionMeta["3"].(RoomVersionImpl).newEventFromUntrustedJSONFunc == newEventFromUntrustedJSONV2
 //@   ensures C04.table.3.newEventFromUntrustedJSONFunc: roomVersionMeta["3"].(RoomVersionImpl).newEventFromUntrustedJSONFunc == newEventFromUntrustedJSONV2
 //@   ensures table.3.newEventFromTrustedJSONFunc: roomVersionMeta["3"].(RoomVersionImpl).newEventFromTrustedJSONFunc == newEventFromTrustedJSONV2
+//@   ensures C18.table.3.newEventFromTrustedJSONFunc: roomVersionMeta["3"].(RoomVersionImpl).newEventFromTrustedJSONFunc == newEventFromTrustedJSONV2
 //@   ensures C03.table.3.newEventFromTrustedJSONFunc: roomVersionMeta["3"].(RoomVersionImpl).newEventFromTrustedJSONFunc == newEventFromTrustedJSONV2
 //@   ensures table.3.newEventFromTrustedJSONWithEventIDFunc: roomVersionMeta["3"].(RoomVersionImpl).newEventFromTrustedJSONWithEventIDFunc == newEventFromTrustedJSONWithEventIDV2
 //@   ensures C03.table.3.newEventFromTrustedJSONWithEventIDFunc: roomVersionMeta["3"].(RoomVersionImpl).newEventFromTrustedJSONWithEventIDFunc == newEventFromTrustedJSONWithEventIDV2
@@ -605,6 +617,7 @@ package gomatrixserverlib
 //@   ensures table.4.parsePowerLevelsFunc: roomVersionMeta["4"].(RoomVersionImpl).parsePowerLevelsFunc == parsePowerLevels
 //@   ensures C08.table.4.parsePowerLevelsFunc: roomVersionMeta["4"].(RoomVersionImpl).parsePowerLevelsFunc == parsePowerLevels
 //@   ensures table.4.domainlessRoomID: roomVersionMeta["4"].(RoomVersionImpl).domainlessRoomID == false
+//@   ensures C18.table.4.domainlessRoomID: roomVersionMeta["4"].(RoomVersionImpl).domainlessRoomID == false
 //@   ensures table.4.privilegedCreators: roomVersionMeta["4"].(RoomVersionImpl).privilegedCreators == false
 //@   ensures C07.table.4.privilegedCreators: roomVersionMeta["4"].(RoomVersionImpl).privilegedCreators == false
 //@   ensures table.4.checkRestrictedJoin: roomVersionMeta["4"].(RoomVersionImpl).checkRestrictedJoin == noCheckRestrictedJoin
@@ -615,11 +628,14 @@ package gomatrixserverlib
 //@   ensures table.4.checkKnockingAllowedFunc: roomVersionMeta["4"].(RoomVersionImpl).checkKnockingAllowedFunc == disallowKnocking
 //@   ensures C07.table.4.checkKnockingAllowedFunc: roomVersionMeta["4"].(RoomVersionImpl).checkKnockingAllowedFunc == disallowKnocking
 //@   ensures table.4.checkCreateEvent: roomVersionMeta["4"].(RoomVersionImpl).checkCreateEvent == checkCreateEventV1
+//@   ensures C18.table.4.checkCreateEvent: roomVersionMeta["4"].(RoomVersionImpl).checkCreateEvent == checkCreateEventV1
 //@   ensures C07.table.4.checkCreateEvent: roomVersionMeta["4"].(RoomVersionImpl).checkCreateEvent == checkCreateEventV1
 //@   ensures table.4.newEventFromUntrustedJSONFunc: roomVersionMeta["4"].(RoomVersionImpl).newEventFromUntrustedJSONFunc == newEventFromUntrustedJSONV2
+//@   ensures C18.table.4.newEventFromUntrustedJSONFunc: roomVersionMeta["4"].(RoomVersionImpl).newEventFromUntrustedJSONFunc == newEventFromUntrustedJSONV2
 //@   ensures C03.table.4.newEventFromUntrustedJSONFunc: roomVersionMeta["4"].(RoomVersionImpl).newEventFromUntrustedJSONFunc == newEventFromUntrustedJSONV2
 //@   ensures C04.table.4.newEventFromUntrustedJSONFunc: roomVersionMeta["4"].(RoomVersionImpl).newEventFromUntrustedJSONFunc == newEventFromUntrustedJSONV2
 //@   ensures table.4.newEventFromTrustedJSONFunc: roomVersionMeta["4"].(RoomVersionImpl).newEventFromTrustedJSONFunc == newEventFromTrustedJSONV2
+//@   ensures C18.table.4.newEventFromTrustedJSONFunc: roomVersionMeta["4"].(RoomVersionImpl).newEventFromTrustedJSONFunc == newEventFromTrustedJSONV2
 //@   ensures C03.table.4.newEventFromTrustedJSONFunc: roomVersionMeta["4"].(RoomVersionImpl).newEventFromTrustedJSONFunc == newEventFromTrustedJSONV2
 //@   ensures table.4.newEventFromTrustedJSONWithEventIDFunc: roomVersionMeta["4"].(RoomVersionImpl).newEventFromTrustedJSONWithEventIDFunc == newEventFromTrustedJSONWithEventIDV2
 //@   ensures C03.table.4.newEventFromTrustedJSONWithEventIDFunc: roomVersionMeta["4"].(RoomVersionImpl).newEventFromTrustedJSONWithEventIDFunc == newEventFromTrustedJSONWithEventIDV2
@@ -646,6 +662,7 @@ package gomatrixserverlib
 //@   ensures table.5.parsePowerLevelsFunc: roomVersionMeta["5"].(RoomVersionImpl).parsePowerLevelsFunc == parsePowerLevels
 //@   ensures C08.table.5.parsePowerLevelsFunc: roomVersionMeta["5"].(RoomVersionImpl).parsePowerLevelsFunc == parsePowerLevels
 //@   ensures table.5.domainlessRoomID: roomVersionMeta["5"].(RoomVersionImpl).domainlessRoomID == false
+//@   ensures C18.table.5.domainlessRoomID: roomVersionMeta["5"].(RoomVersionImpl).domainlessRoomID == false
 //@   ensures table.5.privilegedCreators: roomVersionMeta["5"].(RoomVersionImpl).privilegedCreators == false
 //@   ensures C07.table.5.privilegedCreators: roomVersionMeta["5"].(RoomVersionImpl).privilegedCreators == false
 //@   ensures table.5.checkRestrictedJoin: roomVersionMeta["5"].(RoomVersionImpl).checkRestrictedJoin == noCheckRestrictedJoin
@@ -656,11 +673,14 @@ package gomatrixserverlib
 //@   ensures table.5.checkKnockingAllowedFunc: roomVersionMeta["5"].(RoomVersionImpl).checkKnockingAllowedFunc == disallowKnocking
 //@   ensures C07.table.5.checkKnockingAllowedFunc: roomVersionMeta["5"].(RoomVersionImpl).checkKnockingAllowedFunc == disallowKnocking
 //@   ensures table.5.checkCreateEvent: roomVersionMeta["5"].(RoomVersionImpl).checkCreateEvent == checkCreateEventV1
+//@   ensures C18.table.5.checkCreateEvent: roomVersionMeta["5"].(RoomVersionImpl).checkCreateEvent == checkCreateEventV1
 //@   ensures C07.table.5.checkCreateEvent: roomVersionMeta["5"].(RoomVersionImpl).checkCreateEvent == checkCreateEventV1
 //@   ensures table.5.newEventFromUntrustedJSONFunc: roomVersionMeta["5"].(RoomVersionImpl).newEventFromUntrustedJSONFunc == newEventFromUntrustedJSONV2
+//@   ensures C18.table.5.newEventFromUntrustedJSONFunc: roomVersionMeta["5"].(RoomVersionImpl).newEventFromUntrustedJSONFunc == newEventFromUntrustedJSONV2
 //@   ensures C03.table.5.newEventFromUntrustedJSONFunc: roomVersionMeta["5"].(RoomVersionImpl).newEventFromUntrustedJSONFunc == newEventFromUntrustedJSONV2
 //@   ensures C04.table.5.newEventFromUntrustedJSONFunc: roomVersionMeta["5"].(RoomVersionImpl).newEventFromUntrustedJSONFunc == newEventFromUntrustedJSONV2
 //@   ensures table.5.newEventFromTrustedJSONFunc: roomVersionMeta["5"].(RoomVersionImpl).newEventFromTrustedJSONFunc == newEventFromTrustedJSONV2
+//@   ensures C18.table.5.newEventFromTrustedJSONFunc: roomVersionMeta["5"].(RoomVersionImpl).newEventFromTrustedJSONFunc == newEventFromTrustedJSONV2
 //@   ensures C03.table.5.newEventFromTrustedJSONFunc: roomVersionMeta["5"].(RoomVersionImpl).newEventFromTrustedJSONFunc == newEventFromTrustedJSONV2
 //@   ensures table.5.newEventFromTrustedJSONWithEventIDFunc: roomVersionMeta["5"].(RoomVersionImpl).newEventFromTrustedJSONWithEventIDFunc == newEventFromTrustedJSONWithEventIDV2
 //@   ensures C03.table.5.newEventFromTrustedJSONWithEventIDFunc: roomVersionMeta["5"].(RoomVersionImpl).newEventFromTrustedJSONWithEventIDFunc == newEventFromTrustedJSONWithEventIDV2
@@ -687,6 +707,7 @@ package gomatrixserverlib
 //@   ensures table.6.parsePowerLevelsFunc: roomVersionMeta["6"].(RoomVersionImpl).parsePowerLevelsFunc == parsePowerLevels
 //@   ensures C08.table.6.parsePowerLevelsFunc: roomVersionMeta["6"].(RoomVersionImpl).parsePowerLevelsFunc == parsePowerLevels
 //@   ensures table.6.domainlessRoomID: roomVersionMeta["6"].(RoomVersionImpl).domainlessRoomID == false
+//@   ensures C18.table.6.domainlessRoomID: roomVersionMeta["6"].(RoomVersionImpl).domainlessRoomID == false
 //@   ensures table.6.privilegedCreators: roomVersionMeta["6"].(RoomVersionImpl).privilegedCreators == false
 //@   ensures C07.table.6.privilegedCreators: roomVersionMeta["6"].(RoomVersionImpl).privilegedCreators == false
 //@   ensures table.6.checkRestrictedJoin: roomVersionMeta["6"].(RoomVersionImpl).checkRestrictedJoin == noCheckRestrictedJoin
@@ -697,11 +718,14 @@ package gomatrixserverlib
 //@   ensures table.6.checkKnockingAllowedFunc: roomVersionMeta["6"].(RoomVersionImpl).checkKnockingAllowedFunc == disallowKnocking
 //@   ensures C07.table.6.checkKnockingAllowedFunc: roomVersionMeta["6"].(RoomVersionImpl).checkKnockingAllowedFunc == disallowKnocking
 //@   ensures table.6.checkCreateEvent: roomVersionMeta["6"].(RoomVersionImpl).checkCreateEvent == checkCreateEventV1
+//@   ensures C18.table.6.checkCreateEvent: roomVersionMeta["6"].(RoomVersionImpl).checkCreateEvent == checkCreateEventV1
 //@   ensures C07.table.6.checkCreateEvent: roomVersionMeta["6"].(RoomVersionImpl).checkCreateEvent == checkCreateEventV1
 //@   ensures table.6.newEventFromUntrustedJSONFunc: roomVersionMeta["6"].(RoomVersionImpl).newEventFromUntrustedJSONFunc == newEventFromUntrustedJSONV2
+//@   ensures C18.table.6.newEventFromUntrustedJSONFunc: roomVersionMeta["6"].(RoomVersionImpl).newEventFromUntrustedJSONFunc == newEventFromUntrustedJSONV2
 //@   ensures C03.table.6.newEventFromUntrustedJSONFunc: roomVersionMeta["6"].(RoomVersionImpl).newEventFromUntrustedJSONFunc == newEventFromUntrustedJSONV2
 //@   ensures C04.table.6.newEventFromUntrustedJSONFunc: roomVersionMeta["6"].(RoomVersionImpl).newEventFromUntrustedJSONFunc == newEventFromUntrustedJSONV2
 //@   ensures table.6.newEventFromTrustedJSONFunc: roomVersionMeta["6"].(RoomVersionImpl).newEventFromTrustedJSONFunc == newEventFromTrustedJSONV2
+//@   ensures C18.table.6.newEventFromTrustedJSONFunc: roomVersionMeta["6"].(RoomVersionImpl).newEventFromTrustedJSONFunc == newEventFromTrustedJSONV2
 //@   ensures C03.table.6.newEventFromTrustedJSONFunc: roomVersionMeta["6"].(RoomVersionImpl).newEventFromTrustedJSONFunc == newEventFromTrustedJSONV2
 //@   ensures table.6.newEventFromTrustedJSONWithEventIDFunc: roomVersionMeta["6"].(RoomVersionImpl).newEventFromTrustedJSONWithEventIDFunc == newEventFromTrustedJSONWithEventIDV2
 //@   ensures C03.table.6.newEventFromTrustedJSONWithEventIDFunc: roomVersionMeta["6"].(RoomVersionImpl).newEventFromTrustedJSONWithEventIDFunc == newEventFromTrustedJSONWithEventIDV2
@@ -728,6 +752,7 @@ package gomatrixserverlib
 //@   ensures table.7.parsePowerLevelsFunc: roomVersionMeta["7"].(RoomVersionImpl).parsePowerLevelsFunc == parsePowerLevels
 //@   ensures C08.table.7.parsePowerLevelsFunc: roomVersionMeta["7"].(RoomVersionImpl).parsePowerLevelsFunc == parsePowerLevels
 //@   ensures table.7.domainlessRoomID: roomVersionMeta["7"].(RoomVersionImpl).domainlessRoomID == false
+//@   ensures C18.table.7.domainlessRoomID: roomVersionMeta["7"].(RoomVersionImpl).domainlessRoomID == false
 //@   ensures table.7.privilegedCreators: roomVersionMeta["7"].(RoomVersionImpl).privilegedCreators == false
 //@   ensures C07.table.7.privilegedCreators: roomVersionMeta["7"].(RoomVersionImpl).privilegedCreators == false
 //@   ensures table.7.checkRestrictedJoin: roomVersionMeta["7"].(RoomVersionImpl).checkRestrictedJoin == noCheckRestrictedJoin
@@ -738,11 +763,14 @@ package gomatrixserverlib
 //@   ensures table.7.checkKnockingAllowedFunc: roomVersionMeta["7"].(RoomVersionImpl).checkKnockingAllowedFunc == checkKnocking
 //@   ensures C07.table.7.checkKnockingAllowedFunc: roomVersionMeta["7"].(RoomVersionImpl).checkKnockingAllowedFunc == checkKnocking
 //@   ensures table.7.checkCreateEvent: roomVersionMeta["7"].(RoomVersionImpl).checkCreateEvent == checkCreateEventV1
+//@   ensures C18.table.7.checkCreateEvent: roomVersionMeta["7"].(RoomVersionImpl).checkCreateEvent == checkCreateEventV1
 //@   ensures C07.table.7.checkCreateEvent: roomVersionMeta["7"].(RoomVersionImpl).checkCreateEvent == checkCreateEventV1
 //@   ensures table.7.newEventFromUntrustedJSONFunc: roomVersionMeta["7"].(RoomVersionImpl).newEventFromUntrustedJSONFunc == newEventFromUntrustedJSONV2
+//@   ensures C18.table.7.newEventFromUntrustedJSONFunc: roomVersionMeta["7"].(RoomVersionImpl).newEventFromUntrustedJSONFunc == newEventFromUntrustedJSONV2
 //@   ensures C03.table.7.newEventFromUntrustedJSONFunc: roomVersionMeta["7"].(RoomVersionImpl).newEventFromUntrustedJSONFunc == newEventFromUntrustedJSONV2
 //@   ensures C04.table.7.newEventFromUntrustedJSONFunc: roomVersionMeta["7"].(RoomVersionImpl).newEventFromUntrustedJSONFunc == newEventFromUntrustedJSONV2
 //@   ensures table.7.newEventFromTrustedJSONFunc: roomVersionMeta["7"].(RoomVersionImpl).newEventFromTrustedJSONFunc == newEventFromTrustedJSONV2
+//@   ensures C18.table.7.newEventFromTrustedJSONFunc: roomVersionMeta["7"].(RoomVersionImpl).newEventFromTrustedJSONFunc == newEventFromTrustedJSONV2
 //@   ensures C03.table.7.newEventFromTrustedJSONFunc: roomVersionMeta["7"].(RoomVersionImpl).newEventFromTrustedJSONFunc == newEventFromTrustedJSONV2
 //@   ensures table.7.newEventFromTrustedJSONWithEventIDFunc: roomVersionMeta["7"].(RoomVersionImpl).newEventFromTrustedJSONWithEventIDFunc == newEventFromTrustedJSONWithEventIDV2
 //@   ensures C03.table.7.newEventFromTrustedJSONWithEventIDFunc: roomVersionMeta["7"].(RoomVersionImpl).newEventFromTrustedJSONWithEventIDFunc == newEventFromTrustedJSONWithEventIDV2
@@ -769,6 +797,7 @@ package gomatrixserverlib
 //@   ensures table.8.parsePowerLevelsFunc: roomVersionMeta["8"].(RoomVersionImpl).parsePowerLevelsFunc == parsePowerLevels
 //@   ensures C08.table.8.parsePowerLevelsFunc: roomVersionMeta["8"].(RoomVersionImpl).parsePowerLevelsFunc == parsePowerLevels
 //@   ensures table.8.domainlessRoomID: roomVersionMeta["8"].(RoomVersionImpl).domainlessRoomID == false
+//@   ensures C18.table.8.domainlessRoomID: roomVersionMeta["8"].(RoomVersionImpl).domainlessRoomID == false
 //@   ensures table.8.privilegedCreators: roomVersionMeta["8"].(RoomVersionImpl).privilegedCreators == false
 //@   ensures C07.table.8.privilegedCreators: roomVersionMeta["8"].(RoomVersionImpl).privilegedCreators == false
 //@   ensures table.8.checkRestrictedJoin: roomVersionMeta["8"].(RoomVersionImpl).checkRestrictedJoin == checkRestrictedJoin
@@ -779,11 +808,14 @@ package gomatrixserverlib
 //@   ensures table.8.checkKnockingAllowedFunc: roomVersionMeta["8"].(RoomVersionImpl).checkKnockingAllowedFunc == checkKnocking
 //@   ensures C07.table.8.checkKnockingAllowedFunc: roomVersionMeta["8"].(RoomVersionImpl).checkKnockingAllowedFunc == checkKnocking
 //@   ensures table.8.checkCreateEvent: roomVersionMeta["8"].(RoomVersionImpl).checkCreateEvent == checkCreateEventV1
+//@   ensures C18.table.8.checkCreateEvent: roomVersionMeta["8"].(RoomVersionImpl).checkCreateEvent == checkCreateEventV1
 //@   ensures C07.table.8.checkCreateEvent: roomVersionMeta["8"].(RoomVersionImpl).checkCreateEvent == checkCreateEventV1
 //@   ensures table.8.newEventFromUntrustedJSONFunc: roomVersionMeta["8"].(RoomVersionImpl).newEventFromUntrustedJSONFunc == newEventFromUntrustedJSONV2
+//@   ensures C18.table.8.newEventFromUntrustedJSONFunc: roomVersionMeta["8"].(RoomVersionImpl).newEventFromUntrustedJSONFunc == newEventFromUntrustedJSONV2
 //@   ensures C03.table.8.newEventFromUntrustedJSONFunc: roomVersionMeta["8"].(RoomVersionImpl).newEventFromUntrustedJSONFunc == newEventFromUntrustedJSONV2
 //@   ensures C04.table.8.newEventFromUntrustedJSONFunc: roomVersionMeta["8"].(RoomVersionImpl).newEventFromUntrustedJSONFunc == newEventFromUntrustedJSONV2
 //@   ensures table.8.newEventFromTrustedJSONFunc: roomVersionMeta["8"].(RoomVersionImpl).newEventFromTrustedJSONFunc == newEventFromTrustedJSONV2
+//@   ensures C18.table.8.newEventFromTrustedJSONFunc: roomVersionMeta["8"].(RoomVersionImpl).newEventFromTrustedJSONFunc == newEventFromTrustedJSONV2
 //@   ensures C03.table.8.newEventFromTrustedJSONFunc: roomVersionMeta["8"].(RoomVersionImpl).newEventFromTrustedJSONFunc == newEventFromTrustedJSONV2
 //@   ensures table.8.newEventFromTrustedJSONWithEventIDFunc: roomVersionMeta["8"].(RoomVersionImpl).newEventFromTrustedJSONWithEventIDFunc == newEventFromTrustedJSONWithEventIDV2
 //@   ensures C03.table.8.newEventFromTrustedJSONWithEventIDFunc: roomVersionMeta["8"].(RoomVersionImpl).newEventFromTrustedJSONWithEventIDFunc == newEventFromTrustedJSONWithEventIDV2
@@ -810,6 +842,7 @@ package gomatrixserverlib
 //@   ensures table.9.parsePowerLevelsFunc: roomVersionMeta["9"].(RoomVersionImpl).parsePowerLevelsFunc == parsePowerLevels
 //@   ensures C08.table.9.parsePowerLevelsFunc: roomVersionMeta["9"].(RoomVersionImpl).parsePowerLevelsFunc == parsePowerLevels
 //@   ensures table.9.domainlessRoomID: roomVersionMeta["9"].(RoomVersionImpl).domainlessRoomID == false
+//@   ensures C18.table.9.domainlessRoomID: roomVersionMeta["9"].(RoomVersionImpl).domainlessRoomID == false
 //@   ensures table.9.privilegedCreators: roomVersionMeta["9"].(RoomVersionImpl).privilegedCreators == false
 //@   ensures C07.table.9.privilegedCreators: roomVersionMeta["9"].(RoomVersionImpl).privilegedCreators == false
 //@   ensures table.9.checkRestrictedJoin: roomVersionMeta["9"].(RoomVersionImpl).checkRestrictedJoin == checkRestrictedJoin
@@ -820,11 +853,14 @@ package gomatrixserverlib
 //@   ensures table.9.checkKnockingAllowedFunc: roomVersionMeta["9"].(RoomVersionImpl).checkKnockingAllowedFunc == checkKnocking
 //@   ensures C07.table.9.checkKnockingAllowedFunc: roomVersionMeta["9"].(RoomVersionImpl).checkKnockingAllowedFunc == checkKnocking
 //@   ensures table.9.checkCreateEvent: roomVersionMeta["9"].(RoomVersionImpl).checkCreateEvent == checkCreateEventV1
+//@   ensures C18.table.9.checkCreateEvent: roomVersionMeta["9"].(RoomVersionImpl).checkCreateEvent == checkCreateEventV1
 //@   ensures C07.table.9.checkCreateEvent: roomVersionMeta["9"].(RoomVersionImpl).checkCreateEvent == checkCreateEventV1
 //@   ensures table.9.newEventFromUntrustedJSONFunc: roomVersionMeta["9"].(RoomVersionImpl).newEventFromUntrustedJSONFunc == newEventFromUntrustedJSONV2
+//@   ensures C18.table.9.newEventFromUntrustedJSONFunc: roomVersionMeta["9"].(RoomVersionImpl).newEventFromUntrustedJSONFunc == newEventFromUntrustedJSONV2
 //@   ensures C03.table.9.newEventFromUntrustedJSONFunc: roomVersionMeta["9"].(RoomVersionImpl).newEventFromUntrustedJSONFunc == newEventFromUntrustedJSONV2
 //@   ensures C04.table.9.newEventFromUntrustedJSONFunc: roomVersionMeta["9"].(RoomVersionImpl).newEventFromUntrustedJSONFunc == newEventFromUntrustedJSONV2
 //@   ensures table.9.newEventFromTrustedJSONFunc: roomVersionMeta["9"].(RoomVersionImpl).newEventFromTrustedJSONFunc == newEventFromTrustedJSONV2
+//@   ensures C18.table.9.newEventFromTrustedJSONFunc: roomVersionMeta["9"].(RoomVersionImpl).newEventFromTrustedJSONFunc == newEventFromTrustedJSONV2
 //@   ensures C03.table.9.newEventFromTrustedJSONFunc: roomVersionMeta["9"].(RoomVersionImpl).newEventFromTrustedJSONFunc == newEventFromTrustedJSONV2
 //@   ensures table.9.newEventFromTrustedJSONWithEventIDFunc: roomVersionMeta["9"].(RoomVersionImpl).newEventFromTrustedJSONWithEventIDFunc == newEventFromTrustedJSONWithEventIDV2
 //@   ensures C03.table.9.newEventFromTrustedJSONWithEventIDFunc: roomVersionMeta["9"].(RoomVersionImpl).newEventFromTrustedJSONWithEventIDFunc == newEventFromTrustedJSONWithEventIDV2
@@ -851,6 +887,7 @@ package gomatrixserverlib
 //@   ensures table.10.parsePowerLevelsFunc: roomVersionMeta["10"].(RoomVersionImpl).parsePowerLevelsFunc == parseIntegerPowerLevels
 //@   ensures C08.table.10.parsePowerLevelsFunc: roomVersionMeta["10"].(RoomVersionImpl).parsePowerLevelsFunc == parseIntegerPowerLevels
 //@   ensures table.10.domainlessRoomID: roomVersionMeta["10"].(RoomVersionImpl).domainlessRoomID == false
+//@   ensures C18.table.10.domainlessRoomID: roomVersionMeta["10"].(RoomVersionImpl).domainlessRoomID == false
 //@   ensures table.10.privilegedCreators: roomVersionMeta["10"].(RoomVersionImpl).privilegedCreators == false
 //@   ensures C07.table.10.privilegedCreators: roomVersionMeta["10"].(RoomVersionImpl).privilegedCreators == false
 //@   ensures table.10.checkRestrictedJoin: roomVersionMeta["10"].(RoomVersionImpl).checkRestrictedJoin == checkRestrictedJoin
@@ -861,11 +898,14 @@ package gomatrixserverlib
 //@   ensures table.10.checkKnockingAllowedFunc: roomVersionMeta["10"].(RoomVersionImpl).checkKnockingAllowedFunc == checkKnocking
 //@   ensures C07.table.10.checkKnockingAllowedFunc: roomVersionMeta["10"].(RoomVersionImpl).checkKnockingAllowedFunc == checkKnocking
 //@   ensures table.10.checkCreateEvent: roomVersionMeta["10"].(RoomVersionImpl).checkCreateEvent == checkCreateEventV1
+//@   ensures C18.table.10.checkCreateEvent: roomVersionMeta["10"].(RoomVersionImpl).checkCreateEvent == checkCreateEventV1
 //@   ensures C07.table.10.checkCreateEvent: roomVersionMeta["10"].(RoomVersionImpl).checkCreateEvent == checkCreateEventV1
 //@   ensures table.10.newEventFromUntrustedJSONFunc: roomVersionMeta["10"].(RoomVersionImpl).newEventFromUntrustedJSONFunc == newEventFromUntrustedJSONV2
+//@   ensures C18.table.10.newEventFromUntrustedJSONFunc: roomVersionMeta["10"].(RoomVersionImpl).newEventFromUntrustedJSONFunc == newEventFromUntrustedJSONV2
 //@   ensures C03.table.10.newEventFromUntrustedJSONFunc: roomVersionMeta["10"].(RoomVersionImpl).newEventFromUntrustedJSONFunc == newEventFromUntrustedJSONV2
 //@   ensures C04.table.10.newEventFromUntrustedJSONFunc: roomVersionMeta["10"].(RoomVersionImpl).newEventFromUntrustedJSONFunc == newEventFromUntrustedJSONV2
 //@   ensures table.10.newEventFromTrustedJSONFunc: roomVersionMeta["10"].(RoomVersionImpl).newEventFromTrustedJSONFunc == newEventFromTrustedJSONV2
+//@   ensures C18.table.10.newEventFromTrustedJSONFunc: roomVersionMeta["10"].(RoomVersionImpl).newEventFromTrustedJSONFunc == newEventFromTrustedJSONV2
 //@   ensures C03.table.10.newEventFromTrustedJSONFunc: roomVersionMeta["10"].(RoomVersionImpl).newEventFromTrustedJSONFunc == newEventFromTrustedJSONV2
 //@   ensures table.10.newEventFromTrustedJSONWithEventIDFunc: roomVersionMeta["10"].(RoomVersionImpl).newEventFromTrustedJSONWithEventIDFunc == newEventFromTrustedJSONWithEventIDV2
 //@   ensures C03.table.10.newEventFromTrustedJSONWithEventIDFunc: roomVersionMeta["10"].(RoomVersionImpl).newEventFromTrustedJSONWithEventIDFunc == newEventFromTrustedJSONWithEventIDV2
@@ -892,6 +932,7 @@ package gomatrixserverlib
 //@   ensures table.11.parsePowerLevelsFunc: roomVersionMeta["11"].(RoomVersionImpl).parsePowerLevelsFunc == parseIntegerPowerLevels
 //@   ensures C08.table.11.parsePowerLevelsFunc: roomVersionMeta["11"].(RoomVersionImpl).parsePowerLevelsFunc == parseIntegerPowerLevels
 //@   ensures table.11.domainlessRoomID: roomVersionMeta["11"].(RoomVersionImpl).domainlessRoomID == false
+//@   ensures C18.table.11.domainlessRoomID: roomVersionMeta["11"].(RoomVersionImpl).domainlessRoomID == false
 //@   ensures table.11.privilegedCreators: roomVersionMeta["11"].(RoomVersionImpl).privilegedCreators == false
 //@   ensures C07.table.11.privilegedCreators: roomVersionMeta["11"].(RoomVersionImpl).privilegedCreators == false
 //@   ensures table.11.checkRestrictedJoin: roomVersionMeta["11"].(RoomVersionImpl).checkRestrictedJoin == checkRestrictedJoin
@@ -902,11 +943,14 @@ package gomatrixserverlib
 //@   ensures table.11.checkKnockingAllowedFunc: roomVersionMeta["11"].(RoomVersionImpl).checkKnockingAllowedFunc == checkKnocking
 //@   ensures C07.table.11.checkKnockingAllowedFunc: roomVersionMeta["11"].(RoomVersionImpl).checkKnockingAllowedFunc == checkKnocking
 //@   ensures table.11.checkCreateEvent: roomVersionMeta["11"].(RoomVersionImpl).checkCreateEvent == checkCreateEventV2
+//@   ensures C18.table.11.checkCreateEvent: roomVersionMeta["11"].(RoomVersionImpl).checkCreateEvent == checkCreateEventV2
 //@   ensures C07.table.11.checkCreateEvent: roomVersionMeta["11"].(RoomVersionImpl).checkCreateEvent == checkCreateEventV2
 //@   ensures table.11.newEventFromUntrustedJSONFunc: roomVersionMeta["11"].(RoomVersionImpl).newEventFromUntrustedJSONFunc == newEventFromUntrustedJSONV2
+//@   ensures C18.table.11.newEventFromUntrustedJSONFunc: roomVersionMeta["11"].(RoomVersionImpl).newEventFromUntrustedJSONFunc == newEventFromUntrustedJSONV2
 //@   ensures C03.table.11.newEventFromUntrustedJSONFunc: roomVersionMeta["11"].(RoomVersionImpl).newEventFromUntrustedJSONFunc == newEventFromUntrustedJSONV2
 //@   ensures C04.table.11.newEventFromUntrustedJSONFunc: roomVersionMeta["11"].(RoomVersionImpl).newEventFromUntrustedJSONFunc == newEventFromUntrustedJSONV2
 //@   ensures table.11.newEventFromTrustedJSONFunc: roomVersionMeta["11"].(RoomVersionImpl).newEventFromTrustedJSONFunc == newEventFromTrustedJSONV2
+//@   ensures C18.table.11.newEventFromTrustedJSONFunc: roomVersionMeta["11"].(RoomVersionImpl).newEventFromTrustedJSONFunc == newEventFromTrustedJSONV2
 //@   ensures C03.table.11.newEventFromTrustedJSONFunc: roomVersionMeta["11"].(RoomVersionImpl).newEventFromTrustedJSONFunc == newEventFromTrustedJSONV2
 //@   ensures table.11.newEventFromTrustedJSONWithEventIDFunc: roomVersionMeta["11"].(RoomVersionImpl).newEventFromTrustedJSONWithEventIDFunc == newEventFromTrustedJSONWithEventIDV2
 //@   ensures C03.table.11.newEventFromTrustedJSONWithEventIDFunc: roomVersionMeta["11"].(RoomVersionImpl).newEventFromTrustedJSONWithEventIDFunc == newEventFromTrustedJSONWithEventIDV2
@@ -933,6 +977,7 @@ package gomatrixserverlib
 //@   ensures table.12.parsePowerLevelsFunc: roomVersionMeta["12"].(RoomVersionImpl).parsePowerLevelsFunc == parseIntegerPowerLevels
 //@   ensures C08.table.12.parsePowerLevelsFunc: roomVersionMeta["12"].(RoomVersionImpl).parsePowerLevelsFunc == parseIntegerPowerLevels
 //@   ensures table.12.domainlessRoomID: roomVersionMeta["12"].(RoomVersionImpl).domainlessRoomID == true
+//@   ensures C18.table.12.domainlessRoomID: roomVersionMeta["12"].(RoomVersionImpl).domainlessRoomID == true
 //@   ensures table.12.privilegedCreators: roomVersionMeta["12"].(RoomVersionImpl).privilegedCreators == true
 //@   ensures C07.table.12.privilegedCreators: roomVersionMeta["12"].(RoomVersionImpl).privilegedCreators == true
 //@   ensures table.12.checkRestrictedJoin: roomVersionMeta["12"].(RoomVersionImpl).checkRestrictedJoin == checkRestrictedJoin
@@ -943,11 +988,14 @@ package gomatrixserverlib
 //@   ensures table.12.checkKnockingAllowedFunc: roomVersionMeta["12"].(RoomVersionImpl).checkKnockingAllowedFunc == checkKnocking
 //@   ensures C07.table.12.checkKnockingAllowedFunc: roomVersionMeta["12"].(RoomVersionImpl).checkKnockingAllowedFunc == checkKnocking
 //@   ensures table.12.checkCreateEvent: roomVersionMeta["12"].(RoomVersionImpl).checkCreateEvent == checkCreateEventV3
+//@   ensures C18.table.12.checkCreateEvent: roomVersionMeta["12"].(RoomVersionImpl).checkCreateEvent == checkCreateEventV3
 //@   ensures C07.table.12.checkCreateEvent: roomVersionMeta["12"].(RoomVersionImpl).checkCreateEvent == checkCreateEventV3
 //@   ensures table.12.newEventFromUntrustedJSONFunc: roomVersionMeta["12"].(RoomVersionImpl).newEventFromUntrustedJSONFunc == newEventFromUntrustedJSONV3
+//@   ensures C18.table.12.newEventFromUntrustedJSONFunc: roomVersionMeta["12"].(RoomVersionImpl).newEventFromUntrustedJSONFunc == newEventFromUntrustedJSONV3
 //@   ensures C03.table.12.newEventFromUntrustedJSONFunc: roomVersionMeta["12"].(RoomVersionImpl).newEventFromUntrustedJSONFunc == newEventFromUntrustedJSONV3
 //@   ensures C04.table.12.newEventFromUntrustedJSONFunc: roomVersionMeta["12"].(RoomVersionImpl).newEventFromUntrustedJSONFunc == newEventFromUntrustedJSONV3
 //@   ensures table.12.newEventFromTrustedJSONFunc: roomVersionMeta["12"].(RoomVersionImpl).newEventFromTrustedJSONFunc == newEventFromTrustedJSONV3
+//@   ensures C18.table.12.newEventFromTrustedJSONFunc: roomVersionMeta["12"].(RoomVersionImpl).newEventFromTrustedJSONFunc == newEventFromTrustedJSONV3
 //@   ensures C03.table.12.newEventFromTrustedJSONFunc: roomVersionMeta["12"].(RoomVersionImpl).newEventFromTrustedJSONFunc == newEventFromTrustedJSONV3
 //@   ensures table.12.newEventFromTrustedJSONWithEventIDFunc: roomVersionMeta["12"].(RoomVersionImpl).newEventFromTrustedJSONWithEventIDFunc == newEventFromTrustedJSONWithEventIDV3
 //@   ensures C03.table.12.newEventFromTrustedJSONWithEventIDFunc: roomVersionMeta["12"].(RoomVersionImpl).newEventFromTrustedJSONWithEventIDFunc == newEventFromTrustedJSONWithEventIDV3
@@ -974,6 +1022,7 @@ package gomatrixserverlib
 //@   ensures table.org.matrix.msc3667.parsePowerLevelsFunc: roomVersionMeta["org.matrix.msc3667"].(RoomVersionImpl).parsePowerLevelsFunc == parseIntegerPowerLevels
 //@   ensures C08.table.org.matrix.msc3667.parsePowerLevelsFunc: roomVersionMeta["org.matrix.msc3667"].(RoomVersionImpl).parsePowerLevelsFunc == parseIntegerPowerLevels
 //@   ensures table.org.matrix.msc3667.domainlessRoomID: roomVersionMeta["org.matrix.msc3667"].(RoomVersionImpl).domainlessRoomID == false
+//@   ensures C18.table.org.matrix.msc3667.domainlessRoomID: roomVersionMeta["org.matrix.msc3667"].(RoomVersionImpl).domainlessRoomID == false
 //@   ensures table.org.matrix.msc3667.privilegedCreators: roomVersionMeta["org.matrix.msc3667"].(RoomVersionImpl).privilegedCreators == false
 //@   ensures C07.table.org.matrix.msc3667.privilegedCreators: roomVersionMeta["org.matrix.msc3667"].(RoomVersionImpl).privilegedCreators == false
 //@   ensures table.org.matrix.msc3667.checkRestrictedJoin: roomVersionMeta["org.matrix.msc3667"].(RoomVersionImpl).checkRestrictedJoin == noCheckRestrictedJoin
@@ -984,11 +1033,14 @@ package gomatrixserverlib
 //@   ensures table.org.matrix.msc3667.checkKnockingAllowedFunc: roomVersionMeta["org.matrix.msc3667"].(RoomVersionImpl).checkKnockingAllowedFunc == checkKnocking
 //@   ensures C07.table.org.matrix.msc3667.checkKnockingAllowedFunc: roomVersionMeta["org.matrix.msc3667"].(RoomVersionImpl).checkKnockingAllowedFunc == checkKnocking
 //@   ensures table.org.matrix.msc3667.checkCreateEvent: roomVersionMeta["org.matrix.msc3667"].(RoomVersionImpl).checkCreateEvent == checkCreateEventV1
+//@   ensures C18.table.org.matrix.msc3667.checkCreateEvent: roomVersionMeta["org.matrix.msc3667"].(RoomVersionImpl).checkCreateEvent == checkCreateEventV1
 //@   ensures C07.table.org.matrix.msc3667.checkCreateEvent: roomVersionMeta["org.matrix.msc3667"].(RoomVersionImpl).checkCreateEvent == checkCreateEventV1
 //@   ensures table.org.matrix.msc3667.newEventFromUntrustedJSONFunc: roomVersionMeta["org.matrix.msc3667"].(RoomVersionImpl).newEventFromUntrustedJSONFunc == newEventFromUntrustedJSONV2
+//@   ensures C18.table.org.matrix.msc3667.newEventFromUntrustedJSONFunc: roomVersionMeta["org.matrix.msc3667"].(RoomVersionImpl).newEventFromUntrustedJSONFunc == newEventFromUntrustedJSONV2
 //@   ensures C03.table.org.matrix.msc3667.newEventFromUntrustedJSONFunc: roomVersionMeta["org.matrix.msc3667"].(RoomVersionImpl).newEventFromUntrustedJSONFunc == newEventFromUntrustedJSONV2
 //@   ensures C04.table.org.matrix.msc3667.newEventFromUntrustedJSONFunc: roomVersionMeta["org.matrix.msc3667"].(RoomVersionImpl).newEventFromUntrustedJSONFunc == newEventFromUntrustedJSONV2
 //@   ensures table.org.matrix.msc3667.newEventFromTrustedJSONFunc: roomVersionMeta["org.matrix.msc3667"].(RoomVersionImpl).newEventFromTrustedJSONFunc == newEventFromTrustedJSONV2
+//@   ensures C18.table.org.matrix.msc3667.newEventFromTrustedJSONFunc: roomVersionMeta["org.matrix.msc3667"].(RoomVersionImpl).newEventFromTrustedJSONFunc == newEventFromTrustedJSONV2
 //@   ensures C03.table.org.matrix.msc3667.newEventFromTrustedJSONFunc: roomVersionMeta["org.matrix.msc3667"].(RoomVersionImpl).newEventFromTrustedJSONFunc == newEventFromTrustedJSONV2
 //@   ensures table.org.matrix.msc3667.newEventFromTrustedJSONWithEventIDFunc: roomVersionMeta["org.matrix.msc3667"].(RoomVersionImpl).newEventFromTrustedJSONWithEventIDFunc == newEventFromTrustedJSONWithEventIDV2
 //@   ensures C03.table.org.matrix.msc3667.newEventFromTrustedJSONWithEventIDFunc: roomVersionMeta["org.matrix.msc3667"].(RoomVersionImpl).newEventFromTrustedJSONWithEventIDFunc == newEventFromTrustedJSONWithEventIDV2
@@ -1015,6 +1067,7 @@ package gomatrixserverlib
 //@   ensures table.org.matrix.msc3787.parsePowerLevelsFunc: roomVersionMeta["org.matrix.msc3787"].(RoomVersionImpl).parsePowerLevelsFunc == parsePowerLevels
 //@   ensures C08.table.org.matrix.msc3787.parsePowerLevelsFunc: roomVersionMeta["org.matrix.msc3787"].(RoomVersionImpl).parsePowerLevelsFunc == parsePowerLevels
 //@   ensures table.org.matrix.msc3787.domainlessRoomID: roomVersionMeta["org.matrix.msc3787"].(RoomVersionImpl).domainlessRoomID == false
+//@   ensures C18.table.org.matrix.msc3787.domainlessRoomID: roomVersionMeta["org.matrix.msc3787"].(RoomVersionImpl).domainlessRoomID == false
 //@   ensures table.org.matrix.msc3787.privilegedCreators: roomVersionMeta["org.matrix.msc3787"].(RoomVersionImpl).privilegedCreators == false
 //@   ensures C07.table.org.matrix.msc3787.privilegedCreators: roomVersionMeta["org.matrix.msc3787"].(RoomVersionImpl).privilegedCreators == false
 //@   ensures table.org.matrix.msc3787.checkRestrictedJoin: roomVersionMeta["org.matrix.msc3787"].(RoomVersionImpl).checkRestrictedJoin == checkRestrictedJoin
@@ -1025,11 +1078,14 @@ package gomatrixserverlib
 //@   ensures table.org.matrix.msc3787.checkKnockingAllowedFunc: roomVersionMeta["org.matrix.msc3787"].(RoomVersionImpl).checkKnockingAllowedFunc == checkKnocking
 //@   ensures C07.table.org.matrix.msc3787.checkKnockingAllowedFunc: roomVersionMeta["org.matrix.msc3787"].(RoomVersionImpl).checkKnockingAllowedFunc == checkKnocking
 //@   ensures table.org.matrix.msc3787.checkCreateEvent: roomVersionMeta["org.matrix.msc3787"].(RoomVersionImpl).checkCreateEvent == checkCreateEventV1
+//@   ensures C18.table.org.matrix.msc3787.checkCreateEvent: roomVersionMeta["org.matrix.msc3787"].(RoomVersionImpl).checkCreateEvent == checkCreateEventV1
 //@   ensures C07.table.org.matrix.msc3787.checkCreateEvent: roomVersionMeta["org.matrix.msc3787"].(RoomVersionImpl).checkCreateEvent == checkCreateEventV1
 //@   ensures table.org.matrix.msc3787.newEventFromUntrustedJSONFunc: roomVersionMeta["org.matrix.msc3787"].(RoomVersionImpl).newEventFromUntrustedJSONFunc == newEventFromUntrustedJSONV2
+//@   ensures C18.table.org.matrix.msc3787.newEventFromUntrustedJSONFunc: roomVersionMeta["org.matrix.msc3787"].(RoomVersionImpl).newEventFromUntrustedJSONFunc == newEventFromUntrustedJSONV2
 //@   ensures C03.table.org.matrix.msc3787.newEventFromUntrustedJSONFunc: roomVersionMeta["org.matrix.msc3787"].(RoomVersionImpl).newEventFromUntrustedJSONFunc == newEventFromUntrustedJSONV2
 //@   ensures C04.table.org.matrix.msc3787.newEventFromUntrustedJSONFunc: roomVersionMeta["org.matrix.msc3787"].(RoomVersionImpl).newEventFromUntrustedJSONFunc == newEventFromUntrustedJSONV2
 //@   ensures table.org.matrix.msc3787.newEventFromTrustedJSONFunc: roomVersionMeta["org.matrix.msc3787"].(RoomVersionImpl).newEventFromTrustedJSONFunc == newEventFromTrustedJSONV2
+//@   ensures C18.table.org.matrix.msc3787.newEventFromTrustedJSONFunc: roomVersionMeta["org.matrix.msc3787"].(RoomVersionImpl).newEventFromTrustedJSONFunc == newEventFromTrustedJSONV2
 //@   ensures C03.table.org.matrix.msc3787.newEventFromTrustedJSONFunc: roomVersionMeta["org.matrix.msc3787"].(RoomVersionImpl).newEventFromTrustedJSONFunc == newEventFromTrustedJSONV2
 //@   ensures table.org.matrix.msc3787.newEventFromTrustedJSONWithEventIDFunc: roomVersionMeta["org.matrix.msc3787"].(RoomVersionImpl).newEventFromTrustedJSONWithEventIDFunc == newEventFromTrustedJSONWithEventIDV2
 //@   ensures C03.table.org.matrix.msc3787.newEventFromTrustedJSONWithEventIDFunc: roomVersionMeta["org.matrix.msc3787"].(RoomVersionImpl).newEventFromTrustedJSONWithEventIDFunc == newEventFromTrustedJSONWithEventIDV2
@@ -1056,6 +1112,7 @@ package gomatrixserverlib
 //@   ensures table.org.matrix.msc4014.parsePowerLevelsFunc: roomVersionMeta["org.matrix.msc4014"].(RoomVersionImpl).parsePowerLevelsFunc == parseIntegerPowerLevels
 //@   ensures C08.table.org.matrix.msc4014.parsePowerLevelsFunc: roomVersionMeta["org.matrix.msc4014"].(RoomVersionImpl).parsePowerLevelsFunc == parseIntegerPowerLevels
 //@   ensures table.org.matrix.msc4014.domainlessRoomID: roomVersionMeta["org.matrix.msc4014"].(RoomVersionImpl).domainlessRoomID == false
+//@   ensures C18.table.org.matrix.msc4014.domainlessRoomID: roomVersionMeta["org.matrix.msc4014"].(RoomVersionImpl).domainlessRoomID == false
 //@   ensures table.org.matrix.msc4014.privilegedCreators: roomVersionMeta["org.matrix.msc4014"].(RoomVersionImpl).privilegedCreators == false
 //@   ensures C07.table.org.matrix.msc4014.privilegedCreators: roomVersionMeta["org.matrix.msc4014"].(RoomVersionImpl).privilegedCreators == false
 //@   ensures table.org.matrix.msc4014.checkRestrictedJoin: roomVersionMeta["org.matrix.msc4014"].(RoomVersionImpl).checkRestrictedJoin == checkRestrictedJoin
@@ -1066,11 +1123,14 @@ package gomatrixserverlib
 //@   ensures table.org.matrix.msc4014.checkKnockingAllowedFunc: roomVersionMeta["org.matrix.msc4014"].(RoomVersionImpl).checkKnockingAllowedFunc == checkKnocking
 //@   ensures C07.table.org.matrix.msc4014.checkKnockingAllowedFunc: roomVersionMeta["org.matrix.msc4014"].(RoomVersionImpl).checkKnockingAllowedFunc == checkKnocking
 //@   ensures table.org.matrix.msc4014.checkCreateEvent: roomVersionMeta["org.matrix.msc4014"].(RoomVersionImpl).checkCreateEvent == checkCreateEventV1
+//@   ensures C18.table.org.matrix.msc4014.checkCreateEvent: roomVersionMeta["org.matrix.msc4014"].(RoomVersionImpl).checkCreateEvent == checkCreateEventV1
 //@   ensures C07.table.org.matrix.msc4014.checkCreateEvent: roomVersionMeta["org.matrix.msc4014"].(RoomVersionImpl).checkCreateEvent == checkCreateEventV1
 //@   ensures table.org.matrix.msc4014.newEventFromUntrustedJSONFunc: roomVersionMeta["org.matrix.msc4014"].(RoomVersionImpl).newEventFromUntrustedJSONFunc == newEventFromUntrustedJSONV2
+//@   ensures C18.table.org.matrix.msc4014.newEventFromUntrustedJSONFunc: roomVersionMeta["org.matrix.msc4014"].(RoomVersionImpl).newEventFromUntrustedJSONFunc == newEventFromUntrustedJSONV2
 //@   ensures C03.table.org.matrix.msc4014.newEventFromUntrustedJSONFunc: roomVersionMeta["org.matrix.msc4014"].(RoomVersionImpl).newEventFromUntrustedJSONFunc == newEventFromUntrustedJSONV2
 //@   ensures C04.table.org.matrix.msc4014.newEventFromUntrustedJSONFunc: roomVersionMeta["org.matrix.msc4014"].(RoomVersionImpl).newEventFromUntrustedJSONFunc == newEventFromUntrustedJSONV2
 //@   ensures table.org.matrix.msc4014.newEventFromTrustedJSONFunc: roomVersionMeta["org.matrix.msc4014"].(RoomVersionImpl).newEventFromTrustedJSONFunc == newEventFromTrustedJSONV2
+//@   ensures C18.table.org.matrix.msc4014.newEventFromTrustedJSONFunc: roomVersionMeta["org.matrix.msc4014"].(RoomVersionImpl).newEventFromTrustedJSONFunc == newEventFromTrustedJSONV2
 //@   ensures C03.table.org.matrix.msc4014.newEventFromTrustedJSONFunc: roomVersionMeta["org.matrix.msc4014"].(RoomVersionImpl).newEventFromTrustedJSONFunc == newEventFromTrustedJSONV2
 //@   ensures table.org.matrix.msc4014.newEventFromTrustedJSONWithEventIDFunc: roomVersionMeta["org.matrix.msc4014"].(RoomVersionImpl).newEventFromTrustedJSONWithEventIDFunc == newEventFromTrustedJSONWithEventIDV2
 //@   ensures C03.table.org.matrix.msc4014.newEventFromTrustedJSONWithEventIDFunc: roomVersionMeta["org.matrix.msc4014"].(RoomVersionImpl).newEventFromTrustedJSONWithEventIDFunc == newEventFromTrustedJSONWithEventIDV2
@@ -1097,6 +1157,7 @@ package gomatrixserverlib
 //@   ensures table.org.matrix.hydra.11.parsePowerLevelsFunc: roomVersionMeta["org.matrix.hydra.11"].(RoomVersionImpl).parsePowerLevelsFunc == parseIntegerPowerLevels
 //@   ensures C08.table.org.matrix.hydra.11.parsePowerLevelsFunc: roomVersionMeta["org.matrix.hydra.11"].(RoomVersionImpl).parsePowerLevelsFunc == parseIntegerPowerLevels
 //@   ensures table.org.matrix.hydra.11.domainlessRoomID: roomVersionMeta["org.matrix.hydra.11"].(RoomVersionImpl).domainlessRoomID == true
+//@   ensures C18.table.org.matrix.hydra.11.domainlessRoomID: roomVersionMeta["org.matrix.hydra.11"].(RoomVersionImpl).domainlessRoomID == true
 //@   ensures table.org.matrix.hydra.11.privilegedCreators: roomVersionMeta["org.matrix.hydra.11"].(RoomVersionImpl).privilegedCreators == true
 //@   ensures C07.table.org.matrix.hydra.11.privilegedCreators: roomVersionMeta["org.matrix.hydra.11"].(RoomVersionImpl).privilegedCreators == true
 //@   ensures table.org.matrix.hydra.11.checkRestrictedJoin: roomVersionMeta["org.matrix.hydra.11"].(RoomVersionImpl).checkRestrictedJoin == checkRestrictedJoin
@@ -1107,11 +1168,14 @@ package gomatrixserverlib
 //@   ensures table.org.matrix.hydra.11.checkKnockingAllowedFunc: roomVersionMeta["org.matrix.hydra.11"].(RoomVersionImpl).checkKnockingAllowedFunc == checkKnocking
 //@   ensures C07.table.org.matrix.hydra.11.checkKnockingAllowedFunc: roomVersionMeta["org.matrix.hydra.11"].(RoomVersionImpl).checkKnockingAllowedFunc == checkKnocking
 //@   ensures table.org.matrix.hydra.11.checkCreateEvent: roomVersionMeta["org.matrix.hydra.11"].(RoomVersionImpl).checkCreateEvent == checkCreateEventV3
+//@   ensures C18.table.org.matrix.hydra.11.checkCreateEvent: roomVersionMeta["org.matrix.hydra.11"].(RoomVersionImpl).checkCreateEvent == checkCreateEventV3
 //@   ensures C07.table.org.matrix.hydra.11.checkCreateEvent: roomVersionMeta["org.matrix.hydra.11"].(RoomVersionImpl).checkCreateEvent == checkCreateEventV3
 //@   ensures table.org.matrix.hydra.11.newEventFromUntrustedJSONFunc: roomVersionMeta["org.matrix.hydra.11"].(RoomVersionImpl).newEventFromUntrustedJSONFunc == newEventFromUntrustedJSONV3
+//@   ensures C18.table.org.matrix.hydra.11.newEventFromUntrustedJSONFunc: roomVersionMeta["org.matrix.hydra.11"].(RoomVersionImpl).newEventFromUntrustedJSONFunc == newEventFromUntrustedJSONV3
 //@   ensures C03.table.org.matrix.hydra.11.newEventFromUntrustedJSONFunc: roomVersionMeta["org.matrix.hydra.11"].(RoomVersionImpl).newEventFromUntrustedJSONFunc == newEventFromUntrustedJSONV3
 //@   ensures C04.table.org.matrix.hydra.11.newEventFromUntrustedJSONFunc: roomVersionMeta["org.matrix.hydra.11"].(RoomVersionImpl).newEventFromUntrustedJSONFunc == newEventFromUntrustedJSONV3
 //@   ensures table.org.matrix.hydra.11.newEventFromTrustedJSONFunc: roomVersionMeta["org.matrix.hydra.11"].(RoomVersionImpl).newEventFromTrustedJSONFunc == newEventFromTrustedJSONV3
+//@   ensures C18.table.org.matrix.hydra.11.newEventFromTrustedJSONFunc: roomVersionMeta["org.matrix.hydra.11"].(RoomVersionImpl).newEventFromTrustedJSONFunc == newEventFromTrustedJSONV3
 //@   ensures C03.table.org.matrix.hydra.11.newEventFromTrustedJSONFunc: roomVersionMeta["org.matrix.hydra.11"].(RoomVersionImpl).newEventFromTrustedJSONFunc == newEventFromTrustedJSONV3
 //@   ensures table.org.matrix.hydra.11.newEventFromTrustedJSONWithEventIDFunc: roomVersionMeta["org.matrix.hydra.11"].(RoomVersionImpl).newEventFromTrustedJSONWithEventIDFunc == newEventFromTrustedJSONWithEventIDV3
 //@   ensures C03.table.org.matrix.hydra.11.newEventFromTrustedJSONWithEventIDFunc: roomVersionMeta["org.matrix.hydra.11"].(RoomVersionImpl).newEventFromTrustedJSONWithEventIDFunc == newEventFromTrustedJSONWithEventIDV3
@@ -1442,7 +1506,7 @@ package gomatrixserverlib
 // ---------------------------------------------------------------- C05: redaction
 
 //@ func redactEventJSON
-//@   property C05, C18:safety
+//@   property C05, C06, C18:safety
 //@   requires unredactableEvent != nil
 //@   assigns *unredactableEvent
 //@   ensures malformed: !jokAs(old(*unredactableEvent), eventJSON) ==> err != nil
@@ -1459,6 +1523,7 @@ package gomatrixserverlib
 //@   calls redactEventJSON[*unredactableEventFieldsV1] algorithm: eventTypeToKeepContentFields == unredactableContentFieldsV1 && unredactableEvent != nil && *unredactableEvent == zero("unredactableEventFieldsV1") && eventJSON == root_eventJSON
 //@   ensures delegated: called("redactEventJSON[*unredactableEventFieldsV1]") && result[0] == ret("redactEventJSON[*unredactableEventFieldsV1]", 0) && result[1] == ret("redactEventJSON[*unredactableEventFieldsV1]", 1)
 //@   ensures top-level-keys: jsonKeys("unredactableEventFieldsV1") == "auth_events,content,depth,event_id,hashes,membership,origin,origin_server_ts,prev_events,prev_state,room_id,sender,signatures,state_key,type"
+//@   ensures kept-keys-keep-their-bytes: jsonVerbatimKeys("unredactableEventFieldsV1") == "auth_events,depth,event_id,hashes,membership,origin,origin_server_ts,prev_events,prev_state,room_id,sender,signatures,state_key"
 //@   assigns nothing
 
 // redaction algorithm of room versions 6, 7
@@ -1467,6 +1532,7 @@ package gomatrixserverlib
 //@   calls redactEventJSON[*unredactableEventFieldsV1] algorithm: eventTypeToKeepContentFields == unredactableContentFieldsV2 && unredactableEvent != nil && *unredactableEvent == zero("unredactableEventFieldsV1") && eventJSON == root_eventJSON
 //@   ensures delegated: called("redactEventJSON[*unredactableEventFieldsV1]") && result[0] == ret("redactEventJSON[*unredactableEventFieldsV1]", 0) && result[1] == ret("redactEventJSON[*unredactableEventFieldsV1]", 1)
 //@   ensures top-level-keys: jsonKeys("unredactableEventFieldsV1") == "auth_events,content,depth,event_id,hashes,membership,origin,origin_server_ts,prev_events,prev_state,room_id,sender,signatures,state_key,type"
+//@   ensures kept-keys-keep-their-bytes: jsonVerbatimKeys("unredactableEventFieldsV1") == "auth_events,depth,event_id,hashes,membership,origin,origin_server_ts,prev_events,prev_state,room_id,sender,signatures,state_key"
 //@   assigns nothing
 
 // redaction algorithm of room versions 8
@@ -1475,6 +1541,7 @@ package gomatrixserverlib
 //@   calls redactEventJSON[*unredactableEventFieldsV1] algorithm: eventTypeToKeepContentFields == unredactableContentFieldsV3 && unredactableEvent != nil && *unredactableEvent == zero("unredactableEventFieldsV1") && eventJSON == root_eventJSON
 //@   ensures delegated: called("redactEventJSON[*unredactableEventFieldsV1]") && result[0] == ret("redactEventJSON[*unredactableEventFieldsV1]", 0) && result[1] == ret("redactEventJSON[*unredactableEventFieldsV1]", 1)
 //@   ensures top-level-keys: jsonKeys("unredactableEventFieldsV1") == "auth_events,content,depth,event_id,hashes,membership,origin,origin_server_ts,prev_events,prev_state,room_id,sender,signatures,state_key,type"
+//@   ensures kept-keys-keep-their-bytes: jsonVerbatimKeys("unredactableEventFieldsV1") == "auth_events,depth,event_id,hashes,membership,origin,origin_server_ts,prev_events,prev_state,room_id,sender,signatures,state_key"
 //@   assigns nothing
 
 // redaction algorithm of room versions 9, 10
@@ -1483,6 +1550,7 @@ package gomatrixserverlib
 //@   calls redactEventJSON[*unredactableEventFieldsV1] algorithm: eventTypeToKeepContentFields == unredactableContentFieldsV4 && unredactableEvent != nil && *unredactableEvent == zero("unredactableEventFieldsV1") && eventJSON == root_eventJSON
 //@   ensures delegated: called("redactEventJSON[*unredactableEventFieldsV1]") && result[0] == ret("redactEventJSON[*unredactableEventFieldsV1]", 0) && result[1] == ret("redactEventJSON[*unredactableEventFieldsV1]", 1)
 //@   ensures top-level-keys: jsonKeys("unredactableEventFieldsV1") == "auth_events,content,depth,event_id,hashes,membership,origin,origin_server_ts,prev_events,prev_state,room_id,sender,signatures,state_key,type"
+//@   ensures kept-keys-keep-their-bytes: jsonVerbatimKeys("unredactableEventFieldsV1") == "auth_events,depth,event_id,hashes,membership,origin,origin_server_ts,prev_events,prev_state,room_id,sender,signatures,state_key"
 //@   assigns nothing
 
 // redaction algorithm of room versions 11, 12
@@ -1491,6 +1559,7 @@ package gomatrixserverlib
 //@   calls redactEventJSON[*unredactableEventFieldsV2] algorithm: eventTypeToKeepContentFields == unredactableContentFieldsV5 && unredactableEvent != nil && *unredactableEvent == zero("unredactableEventFieldsV2") && eventJSON == root_eventJSON
 //@   ensures delegated: called("redactEventJSON[*unredactableEventFieldsV2]") && result[0] == ret("redactEventJSON[*unredactableEventFieldsV2]", 0) && result[1] == ret("redactEventJSON[*unredactableEventFieldsV2]", 1)
 //@   ensures top-level-keys: jsonKeys("unredactableEventFieldsV2") == "auth_events,content,depth,event_id,hashes,origin_server_ts,prev_events,room_id,sender,signatures,state_key,type"
+//@   ensures kept-keys-keep-their-bytes: jsonVerbatimKeys("unredactableEventFieldsV2") == "auth_events,depth,event_id,hashes,origin_server_ts,prev_events,room_id,sender,signatures,state_key"
 //@   assigns nothing
 
 //@ func (RoomVersionImpl).RedactEventJSON
@@ -1519,6 +1588,7 @@ package gomatrixserverlib
 //@   ensures redacted-form: !old(e.redacted) ==> (called(RedactEventJSON) && called(EnforcedCanonicalJSON) && e.eventJSON == ret(EnforcedCanonicalJSON, 0))
 //@   calls RedactEventJSON whole-event-under-its-room-version: eventJSON == old(e.eventJSON) && ref(recv) == verImplRef(string(old(e.roomVersion)))
 //@   calls EnforcedCanonicalJSON@root of-redacted-json: input == ret(RedactEventJSON, 0) && roomVersion == old(e.roomVersion)
+//@   ensures parsed-fields-are-those-of-the-redacted-json-alone: !old(e.redacted) ==> *e == setfield(setfield(setfield(jmerge(zero("eventV1"), ret(EnforcedCanonicalJSON, 0)), "eventJSON", ret(EnforcedCanonicalJSON, 0)), "redacted", true), "roomVersion", old(e.roomVersion))
 
 //@ func (*eventV2).Redact
 //@   property C05, C18:safety
@@ -1529,6 +1599,7 @@ package gomatrixserverlib
 //@   ensures redacted-form: !old(e.redacted) ==> (called(RedactEventJSON) && called(EnforcedCanonicalJSON) && e.eventJSON == ret(EnforcedCanonicalJSON, 0))
 //@   calls RedactEventJSON whole-event-under-its-room-version: eventJSON == old(e.eventJSON) && ref(recv) == verImplRef(string(old(e.roomVersion)))
 //@   calls EnforcedCanonicalJSON@root of-redacted-json: input == ret(RedactEventJSON, 0) && roomVersion == old(e.roomVersion)
+//@   ensures parsed-fields-are-those-of-the-redacted-json-alone: !old(e.redacted) ==> *e == setfield(jmerge(zero("eventV2"), ret(EnforcedCanonicalJSON, 0)), "eventV1", setfield(setfield(setfield(jmerge(zero("eventV2"), ret(EnforcedCanonicalJSON, 0)).eventV1, "eventJSON", ret(EnforcedCanonicalJSON, 0)), "redacted", true), "roomVersion", old(e.roomVersion)))
 
 // ---------------------------------------------------------------- C04: untrusted event parsers
 
@@ -1545,9 +1616,17 @@ package gomatrixserverlib
 //@   trusted
 //@   assigns output[*]
 
+// the content-hash check: an event is accepted only after its SHA-256 digest, taken over the event without
+// signatures, unsigned and hashes, was compared with the claimed hash and found equal
 //@ func checkEventContentHash
-//@   trusted
-//@   ensures verdict: (result == nil) <==> hashOK(str(eventJSON))
+//@   property C04, C18:safety
+//@   defines verdict: (result == nil) <==> hashOK(str(eventJSON))
+//@   ensures accepted-only-after-an-equal-comparison: result == nil ==> (called(Equal) && ret(Equal))
+//@   calls Sum256 digest-of-the-event-without-signatures-unsigned-hashes: str(data) == hashed3(old(str(eventJSON)))
+//@   calls Equal digest-against-the-claimed-hash: called(Sum256) && called(DecodeString) && str(b) == str(ret(DecodeString, 0)) && (forall k int :: 0 <= k && k < 32 ==> a[k] == ret(Sum256)[k]) && len(a) == 32
+//@   calls DecodeString decodes-the-claimed-hash: s == ret(GetBytes).Str
+//@   calls GetBytes claimed-hash-is-hashes.sha256: str(json) == old(str(eventJSON)) && path == "hashes.sha256"
+//@   loop 1: invariant 0 <= idx(1) && idx(1) <= 3 && str(hashableEventJSON) == hashedN(old(str(eventJSON)), idx(1))
 //@   assigns nothing
 
 //@ func newEventFromUntrustedJSONV1
@@ -1816,6 +1895,7 @@ package gomatrixserverlib
 //@   requires lexOK(str(input)) && 2 <= index && index <= len(input) && lxEsc(str(input), index - 1) && input[index - 1] == 117 && ref(input) != ref(output)
 //@   ensures resumes-inside-the-string: index < result[1] && result[1] <= len(input) && lxStr(str(input), result[1]) && !lxEsc(str(input), result[1])
 //@   ensures input-untouched: str(input) == old(str(input)) && ref(result[0]) != ref(input)
+//@   ensures output-only-grows: len(result[0]) >= old(len(output)) && (forall k int :: 0 <= k && k < old(len(output)) ==> result[0][k] == old(output[k]))
 
 // ---------------------------------------------------------------- C14: federation verification
 
@@ -2173,11 +2253,14 @@ package gomatrixserverlib
 // CompactJSON never indexes out of range on a lexically well-formed JSON text (what json.Valid / gjson.Valid accept);
 // its output slice must not be the input's backing array
 //@ func CompactJSON
-//@   property C01, C18:safety
+//@   property C01, C02, C18:safety
 //@   requires lexOK(str(input)) && ref(input) != ref(output)
 //@   assigns output[*]
 //@   loop 1: invariant 0 <= i && i <= len(input) && !lxStr(old(str(input)), i) && !lxEsc(old(str(input)), i) && str(input) == old(str(input)) && ref(output) != ref(input)
 //@   loop 2: invariant 0 <= i && i <= len(input) && lxStr(old(str(input)), i) && !lxEsc(old(str(input)), i) && str(input) == old(str(input)) && ref(output) != ref(input)
+//@   loop 2: invariant len(output) > athead(1, len(output)) && output[athead(1, len(output))] == 34
+//@   loop 1: step sign-kept-unless-before-a-lone-zero: (old(input[i]) == 45 && !(input[old(i)+1] == 48 && !(old(i)+2 < len(input) && (input[old(i)+2] == 46 || input[old(i)+2] == 101 || input[old(i)+2] == 69)))) ==> (len(output) > old(len(output)) && output[old(len(output))] == 45)
+//@   loop 1: step other-bytes-outside-strings-are-kept: (old(input[i]) > 32 && old(input[i]) != 45) ==> (len(output) > old(len(output)) && output[old(len(output))] == old(input[i]))
 
 // ---------------------------------------------------------------- C19: the key-fetching worker pool
 
